@@ -710,13 +710,25 @@ class DotProductAttentionPlugin(PrimitiveLeafPlugin):
             cls._ORIG_CALL = orig
 
             def patched(
-                q: Any,
-                k: Any,
-                v: Any,
-                mask: Any | None = None,
+                query: Any,
+                key: Any,
+                value: Any,
                 bias: Any | None = None,
+                mask: Any | None = None,
                 **kwargs: Any,
             ) -> Any:
+                # Same parameter names and order as flax.nnx.dot_product_attention.
+                if kwargs.get("is_causal", False):
+                    # The lowering has no causal path: trace the library function
+                    # itself (its einsum/softmax/where calls have their own plugins)
+                    # instead of silently dropping the flag.
+                    if orig is None:
+                        raise NotImplementedError(
+                            "nnx.dot_product_attention(is_causal=True) is not supported for ONNX export"
+                        )
+                    return orig(query, key, value, bias, mask, **kwargs)
+                kwargs.pop("is_causal", None)
+                q, k, v = query, key, value
                 operands = [q, k, v]
                 has_mask = mask is not None
                 has_bias = bias is not None
